@@ -56,7 +56,7 @@ pub fn bfs<F: Fn(&[u16], u16) -> Step + Sync>(rep: &Reporter, engine: &str, nops
         for l in res.locals {
             transitions += l.transitions;
             for (sig, what, h) in l.bad { rep.violation(sig, what, json!({"engine": engine, "history": describe(&h), "ops": h})); }
-            for (k, h) in l.succ { if seen.insert(k) { if sample.len() < 3 && h.len() >= 6 { sample.push(h.clone()); } next.push(h); } }
+            for (k, h) in l.succ { if seen.insert(k) { if sample.len() < 3 && h.len() >= 3 { sample.push(h.clone()); } next.push(h); } }
         }
         if capped.is_some() { break; }
         if seen.len() as u64 > max_states { capped = Some(format!("state cap {} hit at BFS depth {}", max_states, depth)); break; }
